@@ -149,6 +149,7 @@ def correspond(ctx):
     drv = core.Driver()
     objs = sc.puzzle_objects()
     terms = []
+    objs_by_sx = {}
     for ast in LIB_TERMS:
         terms.append((ast, sc.build(ast)))
     for _ in range(ctx.n(150, 1500)):
@@ -166,6 +167,7 @@ def correspond(ctx):
     # ---- 1. combinator methods and deserialize_problem
     for ast, obj in terms:
         sx = sc.comb_sx(obj)
+        objs_by_sx[sx] = obj
         for _ in range(ctx.n(12, 40)):
             h, w = sc.random_dims(rng) if rng.random() < 0.25 else (rng.randint(1, 4), rng.randint(1, 4))
             if max(h, w) > 70 and ast[0] in ("rooms", "vrooms") and False:
@@ -247,6 +249,42 @@ def correspond(ctx):
         ctx.case(sample, (op, repr(sorted(sample.items()))) if k not in ("none",) else None)
         if ro != mo:
             ctx.disagree("model-vs-code:" + op, real=ro[:2000], model=mo[:2000], **{k2: v for k2, v in sample.items() if k2 != "real"})
+    # ---- 3. second half of the property: whatever was returned is serialized again, real vs model
+    ops2, lines2 = [], []
+    for (op, fn, fmt, sample), mo in zip(ops, outs):
+        if op == "dep" and mo.startswith("(ok") and mo != "(ok N)":
+            val = sc.sx_val(core.parse_sx(mo)[1])
+            obj = objs_by_sx.get(sample["term"])
+            if obj is None:
+                continue
+            h, w = sample["h"], sample["w"]
+            ops2.append((lambda obj=obj, val=val, h=h, w=w: ps.serialize_problem(obj, val, height=h, width=w),
+                         {"fn": "serialize_problem(decoded)", "term": sample["term"], "value": repr(val)[:300], "h": h, "w": w}))
+            lines2.append("(serp %s %s %d %d)" % (sample["term"], sc.val_sx(val), h, w))
+        elif op == "pde" and mo.startswith("(ok") and mo != "(ok N)":
+            m = ps._DESERIALIZE_URL_REG.match(sample["url"])
+            if m is None:
+                continue
+            p = sample["fn"][len("deserialize_"):]
+            val = sc.sx_val(core.parse_sx(mo)[1])
+            hh, ww = int(m[3]), int(m[2])
+            if p in ("lits", "norinori", "heyawake"):
+                if not (isinstance(val, tuple) and len(val) == 3):
+                    continue
+                val = val[2]
+            comb = objs[p][1]
+            ops2.append((lambda comb=comb, val=val, hh=hh, ww=ww: ps.serialize_problem(comb, val, height=hh, width=ww),
+                         {"fn": "serialize_problem(decoded)", "puzzle": p, "value": repr(val)[:300], "h": hh, "w": ww}))
+            lines2.append("(serp (puzzle %s) %s %d %d)" % (p, sc.val_sx(val), hh, ww))
+    outs2 = drv.run(lines2)
+    for (fn, sample), mo in zip(ops2, outs2):
+        ro = sc.str_outcome(sc.run_guarded(fn, 0.25 if mo == "diverge" else 30))
+        ctx.count("reencode:" + _kind(ro))
+        sample = dict(sample)
+        sample["real"] = ro[:200]
+        ctx.case(sample, ("reencode", repr(sorted(sample.items()))))
+        if ro != mo:
+            ctx.disagree("model-vs-code:reencode", real=ro[:2000], model=mo[:2000], **{k2: v for k2, v in sample.items() if k2 != "real"})
     # regenerated puzzle table
     outs = drv.run(["(pcomb %s)" % p for p in sc.PUZZLES])
     for p, mo in zip(sc.PUZZLES, outs):
@@ -284,20 +322,23 @@ def _judge(decode, encode, text):
     return None
 
 
+ROOMS_BASED = ("deserialize_lits", "deserialize_norinori", "deserialize_heyawake")
+
+
 def _sig(where, cls, text, h=None, w=None):
-    if where.startswith("Rooms") or where.startswith("ValuedRooms") or where in ("deserialize_lits", "deserialize_norinori", "deserialize_heyawake"):
-        if cls == "exception:RecursionError":
-            return "rooms:recursion-error-on-large-board"
-        if h is not None and (h == 0 or w == 0):
-            return "rooms:board-without-cells"
-        if h is not None and (h == 1 or w == 1) and cls.startswith("exception:"):
-            return "rooms:single-row-or-column-board"
-    if cls == "exception:AssertionError" and where.startswith("deserialize_") and "url" in where:
-        return "url:assertion-on-non-matching-url"
-    if "HexInt" in where and cls == "not-reencodable":
-        return "hexint:decodes-text-it-cannot-reencode"
+    """stable class name of a failure, by root cause where it can be told"""
+    rooms = where.startswith("Rooms") or where.startswith("ValuedRooms") or where in ROOMS_BASED
+    if rooms and cls == "exception:RecursionError":
+        return "rooms:recursion-error-on-large-board"
+    if rooms and h is not None and (h == 0 or w == 0):
+        return "rooms:board-without-cells"
+    if rooms and h is not None and (h == 1 or w == 1):
+        return "rooms:single-row-or-column-board"
     if "ajilin" in where:
         return "yajilin:" + cls
+    if cls == "not-reencodable" and ("HexInt" in where or where in ("deserialize_nurikabe", "deserialize_sudoku",
+                                                                  "deserialize_nurimisaki", "deserialize_heyawake")):
+        return "hexint:decodes-text-it-cannot-reencode"
     return where.split("(")[0].lower() + ":" + cls
 
 
